@@ -494,7 +494,7 @@ def run(ck, facts, tier):
     guards.run(ck, facts, "C03.guarded-index", ["mimium_lang", "state_tree", "mimium_scheduler", "mimium_audiodriver"])
     from ..rules import errdrop, rewrite
 
-    rewrite.run(ck, facts, "C04.rewrite-complete", belief.rewriting_passes())
+    rewrite.run(ck, facts, "C04.rewrite-complete", belief.rewriting_passes(), eliminated_variants=belief.eliminated_variant_names())
 
     errdrop.run(ck, facts, "C03.error-drop")
     c03_unsafe.run(ck, facts, cg, tier)
